@@ -246,6 +246,102 @@ hstubs! { #[kani::unwind(4)] fn c11_c14_set_features_step() {
     core::mem::forget(h); core::mem::forget(kb);
 }}
 
+
+// ------------------------------------------------------------------ C11 on TWO rings served by one worker (mask 0b11): a per-ring message changes the
+// addressed ring only (state and registration of the other ring untouched), SET_FEATURES / RESET_DEVICE reach EVERY ring, and the
+// registration invariant holds for both rings with each ring's own rank (0 / 1) as event id.  Kick descriptors: ring 0 -> 200, ring 1 -> 203.
+fn ring_fd(i: usize) -> RawFd { if i == 0 { 200 } else { 203 } }
+fn arbitrary_two_ring_state(h: &H) -> [(bool, bool, bool); 2] {
+    let mut st = [(false, false, false); 2];
+    unsafe { REG = [false; NFD]; NCLOSED = 0; }
+    let mut i = 0;
+    while i < 2 {
+        let (ready, enabled, has_kick): (bool, bool, bool) = (kani::any(), kani::any(), kani::any());
+        let v = &h.vrings[i];
+        v.set_queue_ready(ready);
+        v.set_enabled(enabled);
+        if has_kick { v.set_kick(Some(unsafe { File::from_raw_fd(ring_fd(i)) })); }
+        unsafe { if has_kick && ready && enabled { let k = (ring_fd(i) - 200) as usize; REG[k] = true; REG_DATA[k] = i as u64; REG_EP[k] = 40; } }
+        st[i] = (ready, enabled, has_kick);
+        i += 1;
+    }
+    st
+}
+fn check_reg_inv_ring(h: &H, i: usize) {
+    let v = &h.vrings[i];
+    let want = v.ready() && v.enabled();
+    unsafe {
+        if let Some(fd) = v.kick_fd() {
+            let k = (fd - 200) as usize;
+            assert!(REG[k] == want);
+            if want { assert!(REG_DATA[k] == i as u64 && REG_EP[k] == 40); }    // the ring's OWN rank on the owning worker
+        }
+    }
+}
+fn other_ring_untouched(h: &H, o: usize, st: &[(bool, bool, bool); 2], reg_before: bool) {
+    let v = &h.vrings[o];
+    assert!(v.ready() == st[o].0 && v.enabled() == st[o].1 && v.kick_fd() == if st[o].2 { Some(ring_fd(o)) } else { None });
+    unsafe { assert!(REG[(ring_fd(o) - 200) as usize] == reg_before); }
+}
+macro_rules! two_ring_harness {
+    ($name:ident, |$h:ident, $t:ident, $st:ident| $op:block) => {
+        hstubs! { #[kani::unwind(4)] fn $name() {
+            let kb = Arc::new(KB::new(2, 256, u64::MAX, vec![3]));
+            let mut $h = mk_handler(kb.clone(), 2);
+            let $st = arbitrary_two_ring_state(&$h);
+            $h.acked_features = 1 << 30;
+            let $t: usize = if kani::any() { 0 } else { 1 };
+            let o = 1 - $t;
+            let reg_o = unsafe { REG[(ring_fd(o) - 200) as usize] };
+            $op;
+            other_ring_untouched(&$h, o, &$st, reg_o);
+            check_reg_inv_ring(&$h, 0);
+            check_reg_inv_ring(&$h, 1);
+            core::mem::forget($h); core::mem::forget(kb);
+        }}
+    };
+}
+two_ring_harness!(c11_two_rings_set_vring_enable_thorough, |h, t, st| {
+    let en: bool = kani::any();
+    assert!(h.set_vring_enable(t as u32, en).is_ok());
+    assert!(h.vrings[t].enabled() == en && h.vrings[t].ready() == st[t].0);
+});
+two_ring_harness!(c11_two_rings_set_vring_kick_thorough, |h, t, st| {
+    assert!(h.set_vring_kick(t as u8, Some(unsafe { File::from_raw_fd(201) })).is_ok());
+    assert!(h.vrings[t].kick_fd() == Some(201) && h.vrings[t].ready() && h.vrings[t].enabled() == st[t].1);
+});
+two_ring_harness!(c11_two_rings_get_vring_base_thorough, |h, t, st| {
+    assert!(h.get_vring_base(t as u32).is_ok());
+    assert!(!h.vrings[t].ready() && h.vrings[t].kick_fd().is_none() && h.vrings[t].enabled() == st[t].1);
+    unsafe { assert!(!REG[(ring_fd(t) - 200) as usize]); }
+});
+hstubs! { #[kani::unwind(4)] fn c11_two_rings_set_features_reset_device_thorough() {
+    let kb = Arc::new(KB::new(2, 256, u64::MAX, vec![3]));
+    let mut h = mk_handler(kb.clone(), 2);
+    let st = arbitrary_two_ring_state(&h);
+    if kani::any() {
+        let f: u64 = kani::any();
+        assert!(h.set_features(f).is_ok());
+        let mut i = 0;
+        while i < 2 {
+            // without VHOST_USER_F_PROTOCOL_FEATURES EVERY ring is enabled, with it no ring's flag moves; EVENT_IDX reaches every queue
+            assert!(h.vrings[i].enabled() == if (f >> 30) & 1 == 0 { true } else { st[i].1 });
+            assert!(h.vrings[i].queue().event_idx_enabled() == ((f >> 29) & 1 == 1));
+            i += 1;
+        }
+    } else {
+        assert!(h.reset_device().is_ok());
+        assert!(!h.vrings[0].enabled() && !h.vrings[1].enabled());      // EVERY ring is disabled
+    }
+    let mut i = 0;
+    while i < 2 {
+        assert!(h.vrings[i].ready() == st[i].0 && h.vrings[i].kick_fd() == if st[i].2 { Some(ring_fd(i)) } else { None });
+        check_reg_inv_ring(&h, i);
+        i += 1;
+    }
+    core::mem::forget(h); core::mem::forget(kb);
+}}
+
 // ------------------------------------------------------------------ C14: ring configuration reaches the queue unchanged; out-of-range index rejected
 hstubs! { #[kani::unwind(4)] fn c14_set_vring_num_base() {
     let maxq: u16 = kani::any();
